@@ -51,6 +51,9 @@ package taskctl
 //@   modifies scheduler.Stage.End, $wgTokens, $clock
 //@ func (*Scheduler).Schedule$1
 //@   requires [nonnil] s != nil
+//@   assumes  [stage] stage != nil
+//@   ensures  [C08.stageVerdict] (stage.Status == scheduler.StatusDone || stage.Status == scheduler.StatusError) && (stage.Status == scheduler.StatusError ==> !stage.AllowFailure && lastErr != nil)
+//@   ensures  [C08.allowFailureKeepsVerdict] stage.AllowFailure ==> lastErr == old(lastErr) && stage.Status == scheduler.StatusDone
 
 //@ func (*Scheduler).Schedule
 //@   trusted sequential skeleton only: the stage goroutines run concurrently with the loop; for callers the only fact used is that the call returned. The body obligations below (launch guard, no launch after an observed cancel, join before return) ARE proved.
@@ -98,3 +101,21 @@ package taskctl
 //@ property C02: taskctl.checkStatus/ensures[C02.*] taskctl.checkStatus/loop* taskctl.(*Scheduler).Schedule/assert[C02.*] taskctl.(*Scheduler).Schedule/loop*
 //@ property C04: taskctl.(*Scheduler).Schedule/assert[C04.*] taskctl.(*Scheduler).Schedule/loop* taskctl.(*Scheduler).Cancel/* taskctl.(*Scheduler).Canceled/ensures*
 //@ property C01: taskctl.(*Scheduler).Schedule/assert[C01.*]
+
+// ---------------------------------------------------------------------------------------
+// Task execution (C08): an exit-status error of an allow_failure task never marks the task errored
+//@ func NewPgidExecutor
+//@   trusted constructs the process-group executor (os/exec, syscalls): no access to task state
+//@   modifies nothing
+//@ func (*PgidExecutor).Execute
+//@   trusted runs the command through mvdan/sh and os/exec (C20 territory): no access to task state
+//@   modifies nothing
+//@ func (*TaskRunner).notifyTaskChange
+//@   requires [nonnil] r != nil
+//@   modifies nothing
+//@ func (*TaskRunner).execute
+//@   requires [nonnil] r != nil && t != nil
+//@   ensures  [C08.errorVerdict] t.Errored && !old(t.Errored) ==> res != nil && t.Error == res
+//@   ensures  [C08.successVerdict] res == nil ==> t.Errored == old(t.Errored) && t.Error == old(t.Error)
+//@   loop 1 invariant [untouched] t.Errored == old(t.Errored) && t.Error == old(t.Error)
+//@ property C08: taskctl.(*TaskRunner).execute/ensures* taskctl.(*TaskRunner).execute/loop* taskctl.(*Scheduler).Schedule$1/ensures*
